@@ -23,7 +23,7 @@ func init() { register("C09", checkC09) }
 
 func checkC09(c *Ctx) {
 	r := c.R
-	r.Explanation = "Decides structural necessary conditions of C09 on the limiter type that NewCoalescing builds (events/ratelimiting). The type, its Run/Add/Close and its fields are resolved by role (exported anchors, types, dataflow; fields also through grouped sub-structs held by value, pointer or embedding), unexported names only as a reported fallback. Every rule is evaluated on a path-sensitive exploration (one abstract state per path, deferred calls replayed) of Run, Add, Close, the other exported methods and every goroutine body (in the context of its go statement), with same-package callees followed as if inlined: static calls, closures, method values, func-typed fields assigned one function, single-implementation interfaces, closures handed to library functions, literal tables of steps (counted loops unrolled); constant/flag/enum/tuple results of helpers and flags written to captured variables stay correlated with the caller's branches. (L1) pending counter/timer/current window/back-off factor only under the limiter's lock (W for writes); (L2) no wg.Wait while holding a lock that a goroutine counted in the wait group needs to terminate — the Close/Run deadlock; (L3) signals never exceed Adds: a signal (goroutine sending on Run's event channel, at most one send per goroutine) is started only for a pending count known positive that is zeroed in the same write-lock section; (L4) every go statement is preceded by wg.Add on every path, every wg.Add is followed by its go statement or the function's own Done, every goroutine body reaches wg.Done on every exit, Close reaches wg.Wait on every path; (L6) Add counts the event and starts the token goroutine (blocking send on the token channel) in one write-lock section on every path that is not the closed early-return; (L7) the pending count is never zeroed unless a signal is started for it or it is known zero (no counted Add dropped); at a window expiry the pending events are fired; with no window open the token fires immediately, arms a timer of the initial delay and sets the window flag; reaching the cap fires immediately and the cap test is a >= (Add counts independently of the run loop, so == or a strict > misses counts that reach or pass the cap between two token handlings); (L8) timer.Reset only after Stop with the channel drained when Stop reported false; (L9) the back-off factor grows only under a strict current<max test and the current window is clamped to max before it is used or the lock released; (L10) the expiry section restores the idle state (current=initial, factor=1, flag=false, timer=nil); (L11) every signalling goroutine waits on a context derived in Run (not the caller's) and Run cancels it on every return. (L12) every wg.Add is made under the lock after the closed flag was found false in the same section (Close sets the flag, passes the lock as a barrier, then waits), or while the running entry point holds its own count. Shutdown cases in helper goroutines (L5) are reported as NOTE only. UNDECIDED when a role cannot be resolved, a call inside the explored code cannot be followed (then would-be violations of that exploration are not reported as such), a store/comparison has an unrecognised shape, or a bound is exceeded. NOT decided: the window/back-off timeline values, 'first Add immediate', 'every Add followed by a signal in time' and 'no Add lost' over all interleavings."
+	r.Explanation = "Decides structural necessary conditions of C09 on the limiter type that NewCoalescing builds (events/ratelimiting). The type, its Run/Add/Close and its fields are resolved by role (exported anchors, types, dataflow; fields also through grouped sub-structs held by value, pointer or embedding), unexported names only as a reported fallback. Every rule is evaluated on a path-sensitive exploration (one abstract state per path, deferred calls replayed) of Run, Add, Close, the other exported methods and every goroutine body (in the context of its go statement), with same-package callees followed as if inlined: static calls, closures, method values, func-typed fields assigned one function, single-implementation interfaces, closures handed to library functions, literal tables of steps (counted loops unrolled); constant/flag/enum/tuple results of helpers and flags written to captured variables stay correlated with the caller's branches. (L1) pending counter/timer/current window/back-off factor only under the limiter's lock (W for writes); (L2) no wg.Wait while holding a lock that a goroutine counted in the wait group needs to terminate — the Close/Run deadlock; (L3) signals never exceed Adds: a signal (goroutine sending on Run's event channel, at most one send per goroutine) is started only for a pending count known positive that is zeroed in the same write-lock section; (L4) every go statement is preceded by wg.Add on every path, every wg.Add is followed by its go statement or the function's own Done, every goroutine body reaches wg.Done on every exit, Close reaches wg.Wait on every path; (L6) Add counts the event and starts the token goroutine (blocking send on the token channel) in one write-lock section on every path that is not the closed early-return; (L7) the pending count is never zeroed unless a signal is started for it or it is known zero (no counted Add dropped); at a window expiry the pending events are fired; with no window open the token fires immediately, arms a timer of the initial delay and sets the window flag; reaching the cap fires immediately without re-arming or growing the open window, and the cap test is a >= (Add counts independently of the run loop, so == or a strict > misses counts that reach or pass the cap between two token handlings); (L8) timer.Reset only after Stop with the channel drained when Stop reported false; (L9) the back-off factor grows only under a strict current<max test and the current window is clamped to max before it is used or the lock released; (L10) the expiry section restores the idle state (current=initial, factor=1, flag=false, timer=nil); (L11) every signalling goroutine waits on a context derived in Run (not the caller's) and Run cancels it on every return. (L12) every wg.Add is made under the lock after the closed flag was found false in the same section (Close sets the flag, passes the lock as a barrier, then waits), or while the running entry point holds its own count. Shutdown cases in helper goroutines (L5) are reported as NOTE only. UNDECIDED when a role cannot be resolved, the run loop selects on a timer channel carried over from a previous iteration (freshness of a cached channel is not decided), a call inside the explored code cannot be followed (then would-be violations of that exploration are not reported as such), a store/comparison has an unrecognised shape, or a bound is exceeded. NOT decided: the window/back-off timeline values, 'first Add immediate', 'every Add followed by a signal in time' and 'no Add lost' over all interleavings."
 	r.Assumptions = append(r.Assumptions, "type-based lock identity (one limiter instance per receiver)", "the event channel is the channel parameter of the exported Run, followed through calls, closures and go statements", "the pending counter is only ever incremented by one or zeroed (checked), hence never negative", "bounds: call depth 12, 2048 abstract states per block, 16 tracked reads of the pending counter, loop unrolling only for counted loops over literal tables, 4 remembered call results / 3 local flags / first 2 results of a helper per path")
 	r.Rule("C09.L1-guard", "window state only under the limiter lock (W for writes)", 5)
 	r.Rule("C09.L2-wait-under-lock", "wg.Wait is not called holding a lock a counted goroutine needs", 1)
@@ -179,6 +179,7 @@ func checkC09(c *Ctx) {
 	sort.Slice(bodies, func(i, j int) bool { return k.fname(bodies[i]) < k.fname(bodies[j]) })
 	CheckShutdownCases(p, e, r, "C09.L5-shutdown", bodies, []string{"field:" + k.lockKey(k.fCloseCh)}, false)
 
+	k.expiryChannelFresh()
 	k.timerRearm()
 	k.backoffBounded()
 	k.runContext()
@@ -280,11 +281,59 @@ func c09Fixture(c *Ctx) {
 			}
 		}
 		for _, f := range a.sortedFindings() {
-			if f.rule == "C09.L12-add-registered" || strings.HasSuffix(f.construct, " cap comparison") {
+			if f.rule == "C09.L12-add-registered" || strings.HasSuffix(f.construct, " cap comparison") || strings.HasSuffix(f.construct, " cap leaves window") {
 				fr.Check(!f.bad, f.rule, f.construct, f.pos, f.msg, f.msg)
 			}
 		}
 	})
+}
+
+// expiryChannelFresh: the rules assume that the run loop's select watches the channel of the CURRENT
+// window timer. That is evident when the channel is looked up in the iteration that selects on it; when the
+// channel value is carried from one iteration of the loop to the next (cached in a loop variable) its freshness
+// depends on how the cache is invalidated when the timer is replaced, which is not decided: UNDECIDED.
+func (k *c09) expiryChannelFresh() {
+	for _, fn := range k.fns {
+		if k.ctorOnly[fn] {
+			continue
+		}
+		allInstrs(fn, func(in ssa.Instruction) {
+			sel, ok := in.(*ssa.Select)
+			if !ok || !k.isLoopSelect(nil, sel) {
+				return
+			}
+			for _, st := range sel.States {
+				if st.Dir != types.RecvOnly || k.isFieldChan(nil, st.Chan, k.fInput) {
+					continue
+				}
+				if _, isChanOfTime := st.Chan.Type().Underlying().(*types.Chan); !isChanOfTime || !k.isTimerChan(nil, st.Chan) {
+					continue
+				}
+				seen := map[ssa.Value]bool{}
+				var carried func(v ssa.Value) bool
+				carried = func(v ssa.Value) bool {
+					phi, ok := v.(*ssa.Phi)
+					if !ok || seen[v] {
+						return false
+					}
+					seen[v] = true
+					for i, e := range phi.Edges {
+						pred := phi.Block().Preds[i]
+						if phi.Block().Dominates(pred) {
+							return true // a value arriving over a back edge: carried from the previous iteration
+						}
+						if carried(e) {
+							return true
+						}
+					}
+					return false
+				}
+				if carried(st.Chan) {
+					k.r.Undecide("C09: the run loop selects on a timer channel that is carried over from a previous iteration (cached in a loop variable) in %s; whether it is still the channel of the current window timer after the timer was replaced is not decided", k.fname(fn))
+				}
+			}
+		})
+	}
 }
 
 func c09DescribeInstr(in ssa.Instruction) string {
